@@ -1442,34 +1442,34 @@ def _sort_seq(ex, st, call, v, its, clo):
         return ex.fresh(st, call.dst_ty, 'sorted')
     desc = ks[0][0]
     keys = [k for _d, k in ks]
+    lt = (lambda a, b: z3.UGT(a, b)) if desc else (lambda a, b: z3.ULT(a, b))
     le = (lambda a, b: z3.UGE(a, b)) if desc else (lambda a, b: z3.ULE(a, b))
     perms = list(itertools.permutations(range(len(its))))
+    stable = 'unstable' not in call.c0
 
     def cond_of(q):
-        return z3.And([le(keys[q[a]], keys[q[a + 1]]) for a in range(len(q) - 1)]) if len(q) > 1 else z3.BoolVal(True)
+        if len(q) <= 1:
+            return z3.BoolVal(True)
+        if stable:      # equal keys keep their original relative order
+            return z3.And([z3.Or(lt(keys[q[a]], keys[q[a + 1]]), z3.And(keys[q[a]] == keys[q[a + 1]], z3.BoolVal(q[a] < q[a + 1]))) for a in range(len(q) - 1)])
+        return z3.And([le(keys[q[a]], keys[q[a + 1]]) for a in range(len(q) - 1)])
+    feas = [q for q in perms if ex.feasible(st.pc, cond_of(q))]
     outs = []
-    cur = st; curv = v
-    for n_, perm in enumerate(perms):
+    for n_, perm in enumerate(feas):
         cond = cond_of(perm)
-        if not ex.feasible(cur.pc, cond):
-            continue
-        more = any(ex.feasible(cur.pc + [z3.Not(cond)], cond_of(q)) for q in perms[n_ + 1:])
-        if more:
-            h = Obj('', 'h'); h.fields[0] = Cell(curv)
-            cur.globals['__sort'] = h
-            s2, _m = cur.clone()
-            cur.globals.pop('__sort', None)
+        if n_ < len(feas) - 1:
+            h = Obj('', 'h'); h.fields[0] = Cell(v)
+            st.globals['__sort'] = h
+            s2, _m = st.clone()
+            st.globals.pop('__sort', None)
             v2 = s2.globals.pop('__sort').fields[0].val
         else:
-            s2, v2 = cur, curv
-        s2.pc.append(cond)
+            s2, v2 = st, v
+        s2.pc.append(cond)          # ties: a stable sort keeps the original order (conditions are exclusive); an unstable one may produce any of them
         items2 = v2.data['items']
         v2.data['items'] = [items2[j] for j in perm]
-        s2.emit(Ev('SORT', obj=v2, args={'perm': perm, 'descending': desc}, site=call.site))
+        s2.emit(Ev('SORT', obj=v2, args={'perm': perm, 'descending': desc, 'stable': stable}, site=call.site))
         outs.append((s2, ex.unit()))
-        if not more:
-            break
-        cur.pc.append(z3.Not(cond))
     return outs
 
 
@@ -2315,6 +2315,20 @@ def s_bound_map(ex, st, call):
                     out.append((s4, e))
         states = nxt
     return out
+
+
+@rule(r'^<Option<&?(lsm_tree::)?(Slice|UserKey|UserValue)> as PartialEq>::(eq|ne)$')
+def s_option_slice_eq(ex, st, call):
+    a = _as_enum(ex, st, deref(call.args[0])); b = _as_enum(ex, st, deref(call.args[1]))
+    if not isinstance(a, EnumV) or not isinstance(b, EnumV):
+        return NotImplemented
+    pa = deref(_payload(ex, st, a, 'Some')); pb = deref(_payload(ex, st, b, 'Some'))
+    if isinstance(pa, Obj) and isinstance(pb, Obj) and cid(pa) == cid(pb):
+        same = z3.BoolVal(True)
+    else:
+        same = z3.Bool(f'same_bytes!{next(st.fresh)}')      # content equality of two byte strings we know nothing about
+    eq = z3.Or(z3.And(_disc_is(a, 0), _disc_is(b, 0)), z3.And(_disc_is(a, 1), _disc_is(b, 1), same))
+    return eq if call.c0.endswith('::eq') else z3.Not(eq)
 
 
 @rule(r'^<Option<(u64|u32|u16|u8|usize|bool)> as PartialEq>::(eq|ne)$')
